@@ -293,7 +293,25 @@ func init() {
 					return nil
 				}
 			}
-			return fail(w2.Storage, what+map[string]string{"api": " (pending)", "api-committed": " (committed)"}[c.Level])
+			if v := fail(w2.Storage, what+map[string]string{"api": " (pending)", "api-committed": " (committed)"}[c.Level]); v != nil {
+				return v
+			}
+			if c.Kind == "delete-ref" {
+				// the reference query on the live storage: the removed slab is broken, the rest as the parser sees it
+				top := w.topRootOf(c.ID)
+				if top != nil && *top != c.ID {
+					lv := w.Ledger.Clone()
+					delete(lv.Regs, c.ID)
+					resolved, broken := reachableFrom(lv, *top)
+					refs, brokenRefs, err := w2.Storage.GetAllChildReferences(top.SlabID())
+					if err == nil && (idSetString(refs) != regSetString(resolved) || idSetString(brokenRefs) != regSetString(broken)) {
+						return &Violation{Class: "health.refs-broken", Msg: fmt.Sprintf("after removing %s through the storage (%s), GetAllChildReferences(%s) = %s broken %s; expected %s broken %s",
+							c.ID, c.Level, *top, idSetString(refs), idSetString(brokenRefs), regSetString(resolved), regSetString(broken))}
+					}
+					agg.Inc("health.refs-checked")
+				}
+			}
+			return nil
 		}
 		return nil
 	}
